@@ -48,7 +48,7 @@ impl Prop for Twins {
         "twins"
     }
     fn cases(&self, tier: Tier) -> u64 {
-        tier.pick(60_000, 2_000_000)
+        tier.pick(300_000, 6_000_000)
     }
     fn strategy(&self, tier: Tier) -> BoxedStrategy<Case> {
         let shape = HistoryShape::default_for(tier);
@@ -189,7 +189,7 @@ impl Prop for UndoGc {
         "undo-gc"
     }
     fn cases(&self, tier: Tier) -> u64 {
-        tier.pick(60_000, 2_000_000)
+        tier.pick(300_000, 6_000_000)
     }
     fn strategy(&self, tier: Tier) -> BoxedStrategy<Self::Case> {
         use crate::props::c12::{ICase, IStep};
